@@ -12,10 +12,12 @@ PY = '/venv/bin/python'
 REPO = os.environ.get('PYTRS_REPO', '/repo')
 
 UNITS = [' ', '\t', '. ', ', ', ' and', ' and ', '-', '–', '.', ',', ';', ':', ' of', ' the ', 'x', '1', ' 1', ' N', '/', ' & ', '\n', ' ,', '. . ', ' - ', '1 ', '..', ', 1', ' \t', '\t ', ' \n', '\n ', '9',
-         '\xa0', '\u2003', '\xa0 ']     # blanks that only the Unicode-aware `\s` accepts
+         '\xa0', '\u2003', '\xa0 ',     # blanks that only the Unicode-aware `\s` accepts
+         ' north', ' of the road']     # plain English words outside the patterns' vocabulary
 PREFIXES = ['T154N-R97W', 'T154N-R97W Sec 14', 'T154N-R97W Sec 14: Lot 1', 'T154N-R97W Sec 14: NE/4', '', 'Township 154 North', 'Sec 14', 'Lots 1', 'T154N-R97W Sec 1: Lots 1 - ', 'T154N-R97W Sections 1 - ',
-            'T155N', 'T154N-R97W\nSec 14: NE/4\nT155N']     # a township read, its range still to come
-SUFFIXES = ['', ' NE/4', ': NE/4', ' Sec 1: ALL', 'X', 'Sec 22: S/2', ' of the 5th P.M.', ' 2']
+            'T155N', 'T154N-R97W\nSec 14: NE/4\nT155N',     # a township read, its range still to come
+            'T154N-R97W Sec 14 lying ']     # the in-between check of TwpRgeFinder ('Sec N lying within T..R..'), when another Twp/Rge follows
+SUFFIXES = ['', ' NE/4', ': NE/4', ' Sec 1: ALL', 'X', 'Sec 22: S/2', ' T155N-R97W Sec 1: ALL', ' of the 5th P.M.', ' 2']
 LINES = [('T154N-R97W', '\n'), ('T154N-R97W Sec 14: NE/4', '\n'), ('Sec 14: NE/4', ', '), ('Lot 1', ', '), ('T154N-R97W Sec 14: NE/4', ', '), ('NE/4', ' and '),
          ('Township 154 North, Range 97 West', '\n'), ('T154N-R97W Sec 1', '; ')]
 
@@ -24,7 +26,7 @@ def families(tier):
     fams = []
     for p in PREFIXES:
         for u in UNITS:
-            for sfx in (SUFFIXES if tier == 'thorough' else SUFFIXES[:6]):
+            for sfx in (SUFFIXES if tier == 'thorough' else SUFFIXES[:7]):
                 fams.append({'id': f'pump|{p}|{u}|{sfx}', 'prefix': p, 'unit': u, 'suffix': sfx, 'sizes': [4, 8, 12, 16, 20, 24, 28, 32, 48, 64, 96, 128, 200, 290]})
     for u, sep in LINES:
         fams.append({'id': f'lines|{u}|{sep}', 'kind': 'lines', 'unit': u, 'sep': sep, 'prefix': '', 'suffix': '', 'sizes': [2, 3, 4, 5, 6, 7, 8, 10, 12, 16, 24]})
